@@ -54,6 +54,8 @@ def para(r, depth=0):
         else:
             c = PNode("e", "br", [], None, None)
         c.tail = (" " + sentence(r) + " ") if r.random() < 0.7 else None
+        if c.tail is None and r.random() < 0.3:
+            c.tail = " "  # a blank between two inline elements: white space that is content
         p.kids.append(c)
     if r.random() < 0.06:
         # a comment inside the text element (without text after it: finding X1 is about that text)
@@ -508,6 +510,29 @@ def squeeze_ws(p):
             if v is not None:
                 setattr(n, f, NOWS.sub("", v) or None)
     return q
+
+
+def blank_lost(got, want):
+    """pretty_print: the pretty printer adds white space only where an element has no text at all; a white-space-only text
+    or tail inside mixed content (an element with some non-blank text among its text and its children's tails) is
+    content and must still be there.  `got` and `want` have the same element structure.  Returns a description or None."""
+    def nonblank(v):
+        return bool(v and v.strip())
+
+    def go(g, w):
+        slots_w = [w.text] + [k.tail for k in w.kids]
+        slots_g = [g.text] + [k.tail for k in g.kids]
+        if any(nonblank(v) for v in slots_w):
+            for i, (vw, vg) in enumerate(zip(slots_w, slots_g)):
+                if vw and not vw.strip() and not vg:
+                    return f"white-space-only {'text' if i == 0 else 'tail of child %d' % i} of <{w.tag}> is gone"
+        for kg, kw in zip(g.kids, w.kids):
+            r = go(kg, kw)
+            if r:
+                return r
+        return None
+
+    return go(got, want)
 
 
 def drop_blank(p):
